@@ -96,7 +96,7 @@ PROFILES = {
     "C06": dict(store=9, div=7, store_nopid=3, delete=2, tag=1),
     "C11": dict(smeta=8, rmeta=4, dmeta=5, delete=3, store=3, restart=1),
     "C16": dict(store=6, store_nopid=1, tag=3, delete=4, div=1, smeta=4, rmeta=2, dmeta=3, retrieve=1, hexdigest=1),
-    "C17": dict(store=4, tag=1, delete=1, smeta=2, raw_bad=10, raw_ro=5, restart=1),
+    "C17": dict(store=4, store_nopid=3, tag=1, delete=1, smeta=2, raw_bad=10, raw_ro=5, restart=1),
     "C18": dict(store=5, tag=2, delete=3, smeta=5, rmeta=2, dmeta=3, retrieve=2, store_nopid=1),
     "C19": dict(store=4, store_nopid=2, tag=2, delete=2, div=1, converge=4),
     "C14": dict(store=4, smeta=2, delete=1, reopen=5, restart=1),
@@ -115,7 +115,7 @@ def pick_weighted(rng, weights):
     return sorted(weights)[-1]
 
 
-def gen_store_op(rng, prof, npids, ncontents, pid=None, focus=None):
+def gen_store_op(rng, prof, npids, ncontents, pid=None, focus=None, store_algo=None):
     op = {"op": "store", "pid": rng.randrange(npids) if pid is None else pid, "c": rng.randrange(ncontents)}
     if prof in ("C01",) or rng.random() < 0.3:
         op["kind"] = rng.choice(DATA_KINDS)
@@ -141,6 +141,18 @@ def gen_store_op(rng, prof, npids, ncontents, pid=None, focus=None):
         canon = rng.choice(M.ALL_ALGOS)
         op["ckalgo"] = spell(rng, canon)
         op["ck"] = rng.choice(["ok", "upper"])
+    # correlated arguments: the same algorithm asked for twice, the store's own algorithm, plain spellings
+    r = rng.random()
+    if op.get("ckalgo") and r < 0.2:
+        op["add"] = op["ckalgo"]
+    elif op.get("ckalgo") and r < 0.35 and store_algo:
+        plain = M.STORE_ALGOS[store_algo]
+        op["ckalgo"] = rng.choice([plain, store_algo])
+        op["add"] = rng.choice([op["ckalgo"], plain, None])
+        if op["add"] is None:
+            del op["add"]
+    elif op.get("add") and r < 0.45 and store_algo:
+        op["add"] = rng.choice([M.STORE_ALGOS[store_algo], store_algo])
     return op
 
 
@@ -165,6 +177,10 @@ def gen_seq_program(seed, prof, tier="quick", mp=None, length=None):
         from . import adversarial
         pids = adversarial.gen_ids(rng, rng.randint(2, 3))
         formats = [cfg["store_metadata_namespace"]] + adversarial.gen_ids(rng, 2)
+        if rng.random() < 0.15:
+            # identifiers that happen to be (relative) paths of existing files with equal content
+            knobs["chdir"] = True
+            pids = rng.sample(["input/c0", "input/c0.copy", "./input/c0", "input/c1", "input/../input/c0"], 2) + pids[:1]
     else:
         npid = rng.randint(2, 4)
         pool = list(PID_POOL)
@@ -194,7 +210,7 @@ def gen_seq_program(seed, prof, tier="quick", mp=None, length=None):
     for _ in range(length):
         k = pick_weighted(rng, weights)
         if k == "store":
-            ops.append(gen_store_op(rng, prof, npids, ncont))
+            ops.append(gen_store_op(rng, prof, npids, ncont, store_algo=cfg["store_algorithm"]))
         elif k == "store_nopid":
             op = {"op": "store", "pid": None, "c": rng.randrange(ncont), "kind": rng.choice(["str", "path", "file"])}
             ops.append(op)
@@ -242,7 +258,7 @@ def gen_seq_program(seed, prof, tier="quick", mp=None, length=None):
                             "algo": spell(rng, rng.choice(M.ALL_ALGOS)), "ro": True})
         elif k == "converge":
             pid = rng.randrange(npids)
-            sop = gen_store_op(rng, "C19", npids, ncont, pid=pid)
+            sop = gen_store_op(rng, "C19", npids, ncont, pid=pid, store_algo=cfg["store_algorithm"])
             sop["kind"] = rng.choice(["str", "path"])
             if sop.get("size") and not sop.get("ck"):
                 # the step-wise procedure always passes a checksum to delete_if_invalid_object
@@ -327,7 +343,50 @@ def _obj_task_op(rng, npids, ncont):
             "ck": rng.choice(["ok", "wrong", "wrong"]), "size": rng.choice(["ok", "wrong"])}
 
 
+def gen_conc_metax(seed, tier="quick", mp=None):
+    """Metadata calls of two DIFFERENT pids whose (pid, format) concatenations coincide
+    ('ab'+'c' == 'a'+'bc'): documents of different pairs must not affect one another, also when
+    the calls overlap."""
+    rng = rng_for(seed)
+    cfg = gen_cfg(rng, simple=True)
+    knobs = gen_conc_knobs(rng, mp=mp, tier=tier)
+    knobs["blksize"] = None
+    pids = ["ab", "a"]
+    formats = [cfg["store_metadata_namespace"], "c", "bc"]
+    mcontents = [[6, 1], [40, 2], [4000 + rng.randrange(3000), 3]]
+    setup = []
+    if rng.random() < 0.8:
+        setup.append({"op": "smeta", "pid": 0, "fmt": 1, "m": 0})      # ('ab', 'c')
+    if rng.random() < 0.4:
+        setup.append({"op": "smeta", "pid": 1, "fmt": 2, "m": 1})      # ('a', 'bc')
+    if rng.random() < 0.4:
+        setup.append({"op": "smeta", "pid": 0, "fmt": None, "m": 1})
+    if rng.random() < 0.3:
+        setup.append(_st(0, 0))
+
+    def op_for(pi):
+        f = [1, None, 0] if pi == 0 else [2, 2, None]
+        r = rng.random()
+        if r < 0.35:
+            return {"op": "smeta", "pid": pi, "fmt": rng.choice(f), "m": rng.randrange(3)}
+        if r < 0.5:
+            return {"op": "rmeta", "pid": pi, "fmt": rng.choice(f)}
+        if r < 0.65:
+            return {"op": "dmeta", "pid": pi, "fmt": rng.choice([x for x in f if x is not None])}
+        if r < 0.9:
+            return {"op": "dmeta", "pid": pi, "fmt": None}
+        return {"op": "delete", "pid": pi}
+    tasks = [[op_for(0) for _ in range(rng.choice([1, 1, 2]))], [op_for(1) for _ in range(rng.choice([1, 1, 2]))]]
+    if rng.random() < 0.3:
+        tasks.append([op_for(rng.randrange(2))])
+    return {"seed": seed, "engine": "conc", "family": "metax", "cfg": cfg, "knobs": knobs, "pids": pids,
+            "formats": formats, "contents": [[7, 3], [12, 5]], "mcontents": mcontents, "setup": setup,
+            "tasks": tasks, "stagger": [0] + [rng.choice([0, 0, 5, 20]) for _ in tasks[1:]]}
+
+
 def gen_conc_program(seed, family="obj", tier="quick", mp=None, ntasks=None):
+    if family == "metax":
+        return gen_conc_metax(seed, tier, mp)
     algo_family = family == "objalgo"
     if algo_family:
         family = "obj"
